@@ -72,7 +72,14 @@ fn emit(line: String, flush: bool) {
 }
 
 /// One record per fetched instruction, taken *before* the instruction runs.
-pub(crate) fn instruction(func: &str, ip: usize, op: u8, frame_depth: usize, operand_depth: usize) {
+pub(crate) fn instruction(
+    func: &str,
+    ip: usize,
+    op: u8,
+    frame_depth: usize,
+    operand_depth: usize,
+    top: Option<&Primitive>,
+) {
     with_trace(|_| ());
     if !TRACE_INS.with(|x| x.get()) {
         return;
@@ -85,11 +92,33 @@ pub(crate) fn instruction(func: &str, ip: usize, op: u8, frame_depth: usize, ope
             .unwrap_or(std::borrow::Cow::Borrowed("?"));
         let _ = write!(
             line,
-            ",\"ip\":{ip},\"op\":\"{name}\",\"fd\":{frame_depth},\"od\":{operand_depth},\"ad\":{}}}\n",
+            ",\"ip\":{ip},\"op\":\"{name}\",\"fd\":{frame_depth},\"od\":{operand_depth},\"ad\":{}",
             DEPTH.with(|d| d.get())
         );
+        // MSCRIPT_VERIF_TRACE_TOP=1: also the value on top of the operand stack (as `print` shows it)
+        if let (true, Some(value)) = (trace_top(), top) {
+            let opaque = matches!(
+                value,
+                Primitive::Module(_)
+                    | Primitive::Object(_)
+                    | Primitive::Function(_)
+                    | Primitive::BuiltInFunction(_)
+            );
+            line.push_str(",\"top\":");
+            if opaque {
+                json_str(&mut line, "<opaque>");
+            } else {
+                json_str(&mut line, &value.to_string());
+            }
+        }
+        line.push_str("}\n");
         let _ = w.write_all(line.as_bytes());
     });
+}
+
+fn trace_top() -> bool {
+    thread_local!(static TOP: bool = std::env::var_os("MSCRIPT_VERIF_TRACE_TOP").is_some());
+    TOP.with(|x| *x)
 }
 
 /// Guard for one activation of `Function::run`: `enter` on creation, `leave` on drop
